@@ -31,7 +31,7 @@ TRUSTED_BASE = [
     "a child expression is abstracted to (class, operator, uninterpreted rendering R): the lemmas hold for arbitrary nesting by structural induction over the "
     "expression tree (each child's R is what the same lemma yields for the child) -- the induction itself is a paper argument",
     "quick tier: in a lemma with several children one child at a time ranges over all classes / operators while its siblings are names (each position is "
-    "covered for every class; the thorough tier takes all children arbitrary at once)",
+    "covered for every class; the thorough tier lets every pair of children range over all classes at once)",
     "sequences of children (call arguments, list elements, boolean operands, ...) are rendered by _join, proved separately for all lengths against its "
     "defining equations (first element, then joint + element per further element); in the per-class lemmas they have 0..2 elements (bounded, symbolic contents)",
     "repr() of constants is CPython's literal spelling",
@@ -76,6 +76,10 @@ class Child:
         if os.environ.get("PYVC_TIER", "quick") == "quick":
             focus = z3.Int("focus_child")
             P.assume(z3.Or(focus == idx, self.k == names.index("ExprName")))
+        else:
+            # thorough: every pair of children ranges over all classes at once (the full product is out of reach for 4+ children)
+            f1, f2 = z3.Int("focus_child"), z3.Int("focus_child2")
+            P.assume(z3.Or(f1 == idx, f2 == idx, self.k == names.index("ExprName")))
         bin_ops, un_ops, bool_ops = list(BINOPS), list(AST_UNARY.values()), ["and", "or"]
         P.assume(z3.And(self.op >= 0, self.op < len(bin_ops)))
         self.bin_ops, self.un_ops = bin_ops, un_ops
